@@ -289,8 +289,8 @@ pub fn run(r: &Report) {
             d3_roots += 1;
             work.push(Work::Derived(t, true));
         }
-        // depth 4: constructors applied four times over int / text / varint (partners int/text)
-        let reps4 = vec![types::nat(refv::Native::Int), types::nat(refv::Native::Text), types::nat(refv::Native::Varint)];
+        // depth 4: constructors applied four times over int / text / varint / boolean (partners int/text)
+        let reps4 = vec![types::nat(refv::Native::Int), types::nat(refv::Native::Text), types::nat(refv::Native::Varint), types::nat(refv::Native::Boolean)];
         for t in types::depth1_over(&reps4, &[1, 2], false) {
             for t2 in types::derived(&t, &int_text, &[1, 2]) {
                 d4_items += 1;
@@ -365,7 +365,7 @@ pub fn run(r: &Report) {
     r.counters.add("decoded_canonical_forms_bound_again", st.rebinds.load(Ordering::Relaxed));
     r.note("max_type_depth", json!(max_depth.load(Ordering::Relaxed)));
     r.set_rule(
-        "E-ENUM, dynamic value type. Column types: 20 natives; depth 1 = list/set/vector(dim 0..3) of every native, map of every native pair, tuple+UDT arity 0,1,2 (all), 3 (all triples over int,text,boolean,varint,uuid,duration + (n,int,text)); depth 2 = list/set/vector/map/tuple/UDT constructors over every depth-1 type with partner types {int,text,varint,boolean} (quick) or all natives (thorough), vector dim 0..3; thorough adds all 8000 arity-3 tuples and UDTs over the natives, depth 3 (constructors applied three times, partners int/text/varint/boolean) over the six class representatives int/text/boolean/varint/uuid/duration, depth 4 (four times, partners int/text) over int/text/varint, and uses the full native alphabets down to nesting level 2. Values per type: the listed boundary alphabet (numeric MIN/-1/0/1/MAX, NaN payloads, -0.0, multi-byte UTF-8, strings/blobs of 0/1/127/128/16386 bytes, durations at every vint length 1..9, non-normalised and zero-length varints, decimals with negative scale), every container shape (empty, each singleton, pair, triple; every tuple/UDT position x every value, every null pattern, every shorter tuple, every UDT omission pattern, reversed UDT naming order), null, not-set, zero-length empty. Oracle: crate::refvalue (bytes equal incl. length prefix; decode == canonical form). distinct_nontrivial = accepted cases of composite types with a non-null, non-empty value.",
+        "E-ENUM, dynamic value type. Column types: 20 natives; depth 1 = list/set/vector(dim 0..3) of every native, map of every native pair, tuple+UDT arity 0,1,2 (all), 3 (all triples over int,text,boolean,varint,uuid,duration + (n,int,text)); depth 2 = list/set/vector/map/tuple/UDT constructors over every depth-1 type with partner types {int,text,varint,boolean} (quick) or all natives (thorough), vector dim 0..3; thorough adds all 8000 arity-3 tuples and UDTs over the natives, depth 3 (constructors applied three times, partners int/text/varint/boolean) over the six class representatives int/text/boolean/varint/uuid/duration, depth 4 (four times, partners int/text) over int/text/varint/boolean, and uses the full native alphabets down to nesting level 2. Values per type: the listed boundary alphabet (numeric MIN/-1/0/1/MAX, NaN payloads, -0.0, multi-byte UTF-8, strings/blobs of 0/1/127/128/16386 bytes, durations at every vint length 1..9, non-normalised and zero-length varints, decimals with negative scale), every container shape (empty, each singleton, pair, triple; every tuple/UDT position x every value, every null pattern, every shorter tuple, every UDT omission pattern, reversed UDT naming order), null, not-set, zero-length empty. Oracle: crate::refvalue (bytes equal incl. length prefix; decode == canonical form). distinct_nontrivial = accepted cases of composite types with a non-null, non-empty value.",
     );
     r.set_exhaustive(true);
     r.assume("vector element widths follow Cassandra 5.0's fixed-length table (boolean 1, int/float 4, bigint/double/timestamp 8, uuid/timeuuid 16; vector of fixed = width x dim); everything else is unsigned-vint length prefixed");
